@@ -104,6 +104,9 @@ type FOOp struct {
 	BuildEqual bool `json:"build_equal,omitempty"`
 	// BuildErrKind: what the builder's error wraps when it fails (see ErrTok.W).
 	BuildErrKind string `json:"build_err_kind,omitempty"`
+	// BuildNil: the builder returns a nil interface value with a nil error (untyped APIs only): a legitimate
+	// result that is cached like any other; the harness sees it as the token <key>/nil.
+	BuildNil bool `json:"build_nil,omitempty"`
 	// NestKey > 0: while it runs, the builder calls Get on the same Failover for key NestKey-1 (a different
 	// key: building one value from another cached one). The nested Get is recorded like any other.
 	NestKey   int       `json:"nest_key,omitempty"`
@@ -272,6 +275,10 @@ func (a plainAPI) Get(ctx context.Context, key []byte, build func(ctx context.Co
 		return wrapVal(a.rep, t), nil
 	})
 
+	if v == nil && err == nil {
+		return nilTok(string(key), nil), nil
+	}
+
 	return unwrapVal(v), err
 }
 func (a plainAPI) KeyLockNames() []string { return a.f.VerifKeyLockNames() }
@@ -323,6 +330,10 @@ func (a anyAPI) Get(ctx context.Context, key []byte, build func(ctx context.Cont
 
 		return wrapVal(a.rep, t), nil
 	})
+
+	if v == nil && err == nil {
+		return nilTok(string(key), nil), nil
+	}
 
 	return unwrapVal(v), err
 }
@@ -507,10 +518,14 @@ func (w beWrap) Read(ctx context.Context, k []byte) (interface{}, error) {
 		x, err := w.real.Read(ctx, k)
 		raw = x
 
+		if x == nil && err == nil {
+			return nilTok(string(k), nil), nil // a stored nil value
+		}
+
 		return unwrapVal(x), err
 	})
-	if err == nil && raw != nil {
-		return raw, nil // the library gets the stored representation, the call log the token
+	if err == nil {
+		return raw, nil // the library gets the stored representation (possibly nil), the call log the token
 	}
 
 	if err != nil && w.r.sc.WrapBackendErrs {
@@ -521,7 +536,7 @@ func (w beWrap) Read(ctx context.Context, k []byte) (interface{}, error) {
 }
 
 func (w beWrap) Write(ctx context.Context, k []byte, v interface{}) error {
-	return w.r.beWrite(ctx, k, unwrapVal(v), func() error { return w.real.Write(ctx, k, v) })
+	return w.r.beWrite(ctx, k, nilTok(string(k), unwrapVal(v)), func() error { return w.real.Write(ctx, k, v) })
 }
 
 type beWrapOf struct {
@@ -628,11 +643,18 @@ func (r *foRun) construct() {
 			plain: m, stop: m.VerifStop, len: m.Len, expAl: m.ExpireAll, del: m.Delete,
 			read: func(ctx context.Context, k []byte) (interface{}, error) {
 				v, err := m.Read(ctx, k)
+				if v == nil && err == nil {
+					return nilTok(string(k), nil), nil // a stored nil value
+				}
+
 				return unwrapVal(v), err
 			},
 			write: func(ctx context.Context, k []byte, v Tok) error { return m.Write(ctx, k, wrapVal(sc.ValRep, v)) },
 			walk: func(fn func(key []byte, v interface{}, exp time.Time)) {
-				_, _ = m.Walk(func(en cache.Entry) error { fn(en.Key(), unwrapVal(en.Value()), en.ExpireAt()); return nil })
+				_, _ = m.Walk(func(en cache.Entry) error {
+					fn(en.Key(), nilTok(string(en.Key()), unwrapVal(en.Value())), en.ExpireAt())
+					return nil
+				})
 			},
 		}
 	case "shardedOf":
@@ -652,12 +674,16 @@ func (r *foRun) construct() {
 			plain: m, stop: m.VerifStop, len: m.Len, expAl: m.ExpireAll, del: m.Delete,
 			read: func(ctx context.Context, k []byte) (interface{}, error) {
 				v, err := m.Read(ctx, k)
+				if v == nil && err == nil {
+					return nilTok(string(k), nil), nil // a stored nil value
+				}
+
 				return unwrapVal(v), err
 			},
 			write: func(ctx context.Context, k []byte, v Tok) error { return m.Write(ctx, k, wrapVal(sc.ValRep, v)) },
 			walk: func(fn func(key []byte, v interface{}, exp time.Time)) {
 				_, _ = m.Walk(func(en cache.EntryOf[interface{}]) error {
-					fn(en.Key(), unwrapVal(en.Value()), en.ExpireAt())
+					fn(en.Key(), nilTok(string(en.Key()), unwrapVal(en.Value())), en.ExpireAt())
 					return nil
 				})
 			},
@@ -668,11 +694,18 @@ func (r *foRun) construct() {
 			plain: m, stop: m.VerifStop, len: m.Len, expAl: m.ExpireAll, del: m.Delete,
 			read: func(ctx context.Context, k []byte) (interface{}, error) {
 				v, err := m.Read(ctx, k)
+				if v == nil && err == nil {
+					return nilTok(string(k), nil), nil // a stored nil value
+				}
+
 				return unwrapVal(v), err
 			},
 			write: func(ctx context.Context, k []byte, v Tok) error { return m.Write(ctx, k, wrapVal(sc.ValRep, v)) },
 			walk: func(fn func(key []byte, v interface{}, exp time.Time)) {
-				_, _ = m.Walk(func(en cache.Entry) error { fn(en.Key(), unwrapVal(en.Value()), en.ExpireAt()); return nil })
+				_, _ = m.Walk(func(en cache.Entry) error {
+					fn(en.Key(), nilTok(string(en.Key()), unwrapVal(en.Value())), en.ExpireAt())
+					return nil
+				})
 			},
 		}
 	}
@@ -1102,6 +1135,11 @@ func (r *foRun) builder(rec *opRec, ctx context.Context) (Tok, error) {
 	b.tok = Tok{K: rec.key, ID: "b" + rec.id()[1:]}
 	if op.BuildEqual {
 		b.tok = Tok{K: rec.key, ID: "pre"}
+	}
+
+	if op.BuildNil && r.sc.API != "failoverOf" {
+		b.tok = Tok{K: rec.key, ID: nilID} // wrapVal turns it into a nil interface
+		e.out.probe("builder_returned_nil_value")
 	}
 
 	e.logf("build exit %s key=%q -> %v", rec.id(), rec.key, b.tok)
